@@ -701,3 +701,282 @@ Proof.
   destruct (unit_vector_onehot _ _ _ _ _ Hn Htp Eu) as (j & Lj & ->). rewrite Nat2Z.id in *.
   rewrite in_prod_comm, in_prod_onehot by exact Lj. apply nth_In. exact Lj.
 Qed.
+
+(** ** _randbelow: range *)
+Lemma from_bits_app : forall a b, from_bits (a ++ b) = from_bits a + 2 ^ Z.of_nat (length a) * from_bits b.
+Proof.
+  induction a as [|x a IH]; intros b.
+  - simpl. destruct (from_bits b); reflexivity.
+  - cbn [app from_bits length]. rewrite IH, Nat2Z.inj_succ, Z.pow_succ_r by lia. ring.
+Qed.
+
+Lemma skipn_cons_nth : forall i (x : list Z), (i < length x)%nat -> skipn i x = nth i x 0 :: skipn (S i) x.
+Proof.
+  induction i as [|i IH]; intros [|b r] L; simpl in L; try lia.
+  - reflexivity.
+  - change (skipn (S i) (b :: r)) with (skipn i r). change (skipn (S (S i)) (b :: r)) with (skipn (S i) r).
+    cbn [nth]. apply IH. lia.
+Qed.
+
+Ltac eqb_cases := repeat match goal with
+  | |- context [?a =? ?b] => destruct (Z.eqb_spec a b)
+  | H : context [?a =? ?b] |- _ => destruct (Z.eqb_spec a b) end.
+
+Lemma rb_loop_inv : forall (b : Z) (k t : nat), 0 <= b -> b < 2 ^ Z.of_nat k -> (1 <= t)%nat ->
+  forall fuel x h i tp r tp',
+    bits tp -> bits x -> length x = k -> (i <= k)%nat ->
+    from_bits (skipn i x) <= b / 2 ^ Z.of_nat i ->
+    h = (if from_bits (skipn i x) =? b / 2 ^ Z.of_nat i then 1 else 0) ->
+    rb_loop fuel b k t x h i tp = Some (r, tp') ->
+    bits r /\ length r = k /\ bits tp' /\
+    exists i', (i' < t)%nat /\ (i' <= k)%nat /\ from_bits (skipn i' r) <= b / 2 ^ Z.of_nat i'.
+Proof.
+  intros b k t Hb Hbk Ht. induction fuel as [|fuel IH]; intros x h i tp r tp' Htp Hx Lx Lik Hhi Hh H; [discriminate|].
+  cbn [rb_loop] in H. destruct (i <? t)%nat eqn:Eit.
+  - injection H as <- <-. apply Nat.ltb_lt in Eit. repeat split; try assumption. exists i. repeat split; assumption.
+  - apply Nat.ltb_ge in Eit. destruct i as [|i']; [lia|].
+    replace (S i' - 1)%nat with i' in H by lia.
+    pose proof (bits_nth x i' Hx) as Hc. pose proof (shift_bit b i' Hb) as Hs.
+    assert (Esk : skipn i' x = nth i' x 0 :: skipn (S i') x) by (apply skipn_cons_nth; lia).
+    assert (Efb : from_bits (skipn i' x) = nth i' x 0 + 2 * from_bits (skipn (S i') x)) by (rewrite Esk; reflexivity).
+    set (xi := nth i' x 0) in *. set (hi := from_bits (skipn (S i') x)) in *.
+    set (B := b / 2 ^ Z.of_nat (S i')) in *. set (B' := b / 2 ^ Z.of_nat i') in *.
+    destruct (Z.testbit b (Z.of_nat i')) eqn:Eb.
+    + apply (IH _ _ _ _ _ _ Htp Hx Lx) in H; [exact H | lia | | ].
+      * rewrite Efb. destruct Hc as [E | E]; rewrite E; lia.
+      * rewrite Efb, Hh. destruct Hc as [E | E]; rewrite E; eqb_cases; lia.
+    + destruct (h * xi =? 0) eqn:Ez.
+      * apply Z.eqb_eq in Ez.
+        apply (IH _ _ _ _ _ _ Htp Hx Lx) in H; [exact H | lia | | ].
+        -- rewrite Efb. rewrite Hh in Ez. destruct Hc as [E | E]; rewrite E in *; eqb_cases; lia.
+        -- rewrite Efb. rewrite Hh in Ez |- *. destruct Hc as [E | E]; rewrite E in *; eqb_cases; lia.
+      * apply Z.eqb_neq in Ez.
+        destruct (draw (k - i') tp) as [[nb tp1]|] eqn:Ed; [|discriminate].
+        destruct (draw_bits _ _ _ _ Htp Ed) as [Hnb Htp1]. apply draw_spec in Ed. destruct Ed as (_ & _ & Lnb).
+        assert (Hx' : bits (firstn i' x ++ nb)) by (apply bits_app; split; [apply bits_firstn; exact Hx | exact Hnb]).
+        assert (Lx' : length (firstn i' x ++ nb) = k) by (rewrite app_length, firstn_length_le by lia; lia).
+        assert (Esk0 : skipn k (firstn i' x ++ nb) = []) by (apply skipn_all2; lia).
+        assert (Ediv : b / 2 ^ Z.of_nat k = 0) by (apply Z.div_small; lia).
+        apply (IH _ _ _ _ _ _ Htp1 Hx' Lx') in H; [exact H | lia | | ].
+        -- rewrite Esk0, Ediv. simpl. lia.
+        -- rewrite Esk0, Ediv. simpl. rewrite Hh in Ez |- *. eqb_cases; lia.
+Qed.
+
+(** accepted bit strings encode a value <= b, provided the loop ran down to a bit position i' with 2^i' | b+1 *)
+Lemma accept_le : forall b i' r, 0 <= b -> bits r -> (i' <= length r)%nat ->
+  (2 ^ Z.of_nat i' | b + 1) -> from_bits (skipn i' r) <= b / 2 ^ Z.of_nat i' -> from_bits r <= b.
+Proof.
+  intros b i' r Hb Hr Li [q Hq] Hle.
+  rewrite <- (firstn_skipn i' r), from_bits_app, firstn_length_le by exact Li.
+  pose proof (from_bits_bound (firstn i' r) (bits_firstn i' r Hr)) as Hlo. rewrite firstn_length_le in Hlo by exact Li.
+  assert (P : 0 < 2 ^ Z.of_nat i') by (apply Z.pow_pos_nonneg; lia).
+  set (W := 2 ^ Z.of_nat i') in *. set (hi := from_bits (skipn i' r)) in *. set (lo := from_bits (firstn i' r)) in *.
+  assert (EB : b / W = q - 1).
+  { symmetry. apply Z.div_unique with (r := W - 1); [left; lia | nia]. }
+  rewrite EB in Hle. clearbody W hi lo. nia.
+Qed.
+
+(** t = (n & -n).bit_length() - 1 is a bit position with 2^t | n *)
+Lemma lowbit_divides : forall n, 1 <= n ->
+  let g := Z.land n (- n) in 0 < g /\ (2 ^ Z.log2 g | n).
+Proof.
+  intros n Hn g.
+  assert (G0 : 0 <= g) by (apply Z.land_nonneg; left; lia).
+  assert (Gnz : g <> 0).
+  { intros E. unfold g in E. pose proof (Z.add_nocarry_lxor n (- n) E) as A.
+    replace (n + - n) with 0 in A by lia. symmetry in A. apply Z.lxor_eq in A. lia. }
+  split; [lia|].
+  set (L := Z.log2 g). assert (L0 : 0 <= L) by apply Z.log2_nonneg.
+  assert (TB : Z.testbit g L = true) by (apply Z.bit_log2; lia).
+  unfold g in TB. rewrite Z.land_spec in TB. apply andb_prop in TB. destruct TB as [T1 T2].
+  replace (- n) with (Z.lnot (n - 1)) in T2 by (unfold Z.lnot; lia).
+  rewrite Z.lnot_spec in T2 by lia. apply negb_true_iff in T2.
+  apply Z.testbit_true in T1; [|lia]. apply Z.testbit_false in T2; [|lia].
+  assert (P : 0 < 2 ^ L) by (apply Z.pow_pos_nonneg; lia).
+  set (W := 2 ^ L) in *.
+  exists (n / W).
+  destruct (Z.eq_dec (n mod W) 0) as [E|E].
+  - pose proof (Z.div_mod n W ltac:(lia)). lia.
+  - exfalso.
+    assert (D : (n - 1) / W = n / W).
+    { symmetry. apply Z.div_unique with (r := n mod W - 1).
+      - left. pose proof (Z.mod_pos_bound n W P). lia.
+      - pose proof (Z.div_mod n W ltac:(lia)). lia. }
+    rewrite D in T2. lia.
+Qed.
+
+Lemma pow2_fast_path : forall n, 1 <= n -> Z.land n (n - 1) = 0 -> 2 ^ Z.of_nat (bit_length (n - 1)) <= n.
+Proof.
+  intros n Hn E. set (L := Z.log2 n). assert (L0 : 0 <= L) by apply Z.log2_nonneg.
+  destruct (Z.log2_spec n ltac:(lia)) as [S1 S2]. fold L in S1, S2.
+  destruct (Z.eq_dec n (2 ^ L)) as [EQ | NE].
+  - unfold bit_length. destruct (n - 1 =? 0) eqn:E0; [simpl; lia|].
+    apply Z.eqb_neq in E0. rewrite Z.abs_eq by lia.
+    assert (Lp : 0 < L). { destruct (Z.eq_dec L 0) as [Z0|]; [rewrite Z0 in EQ; simpl in EQ; lia | lia]. }
+    replace (n - 1) with (Z.pred (2 ^ L)) by lia. rewrite Z.log2_pred_pow2 by lia.
+    rewrite Z2Nat.id by lia. replace (Z.pred L + 1) with L by lia. lia.
+  - exfalso.
+    assert (T1 : Z.testbit n L = true) by (apply Z.bit_log2; lia).
+    assert (L' : Z.log2 (n - 1) = L) by (apply Z.log2_unique; [lia | split; lia]).
+    assert (T2 : Z.testbit (n - 1) L = true) by (rewrite <- L'; apply Z.bit_log2; lia).
+    assert (T : Z.testbit (Z.land n (n - 1)) L = true) by (rewrite Z.land_spec, T1, T2; reflexivity).
+    rewrite E, Z.bits_0 in T. discriminate.
+Qed.
+
+Theorem randbelow_bits_range : forall fuel n tp x tp', 1 <= n -> bits tp ->
+  randbelow_bits fuel n tp = Some (x, tp') ->
+  bits x /\ length x = bit_length (n - 1) /\ 0 <= from_bits x < n /\ bits tp'.
+Proof.
+  intros fuel n tp x tp' Hn Htp H. unfold randbelow_bits in H.
+  destruct (Z.land n (n - 1) =? 0) eqn:Ep.
+  - apply Z.eqb_eq in Ep. destruct (draw_bits _ _ _ _ Htp H) as [Hx Ht]. apply draw_spec in H.
+    destruct H as (_ & _ & L). repeat split; try assumption.
+    + apply from_bits_bound. exact Hx.
+    + pose proof (from_bits_bound x Hx) as B. rewrite L in B. pose proof (pow2_fast_path n Hn Ep). lia.
+  - destruct (draw (bit_length (n - 1)) tp) as [[x0 tp1]|] eqn:Ed; [|discriminate].
+    destruct (draw_bits _ _ _ _ Htp Ed) as [Hx0 Htp1]. apply draw_spec in Ed. destruct Ed as (_ & _ & L0).
+    destruct (lowbit_divides n Hn) as [Gp Gd]. set (g := Z.land n (- n)) in *.
+    set (k := bit_length (n - 1)) in *. set (t := bit_length g) in *.
+    assert (Hn1 : 1 <= n - 1).
+    { destruct (Z.eq_dec n 1) as [->|]; [simpl in Ep; discriminate | lia]. }
+    destruct (bit_length_pos (n - 1) Hn1) as (K1 & _ & K3). fold k in K1, K3.
+    assert (Tt : Z.of_nat t = Z.log2 g + 1).
+    { unfold t, bit_length. destruct (g =? 0) eqn:E0; [lia|]. rewrite Z.abs_eq by lia.
+      pose proof (Z.log2_nonneg g). lia. }
+    assert (T1 : (1 <= t)%nat) by (pose proof (Z.log2_nonneg g); lia).
+    apply (rb_loop_inv (n - 1) k t ltac:(lia) K3 T1) in H; try assumption; try lia.
+    + destruct H as (Hr & Lr & Ht & i' & Li & Lik & Hle). repeat split; try assumption.
+      * apply from_bits_bound. exact Hr.
+      * assert (Dv : (2 ^ Z.of_nat i' | n - 1 + 1)).
+        { replace (n - 1 + 1) with n by lia. apply Z.divide_trans with (2 ^ Z.log2 g); [|exact Gd].
+          exists (2 ^ (Z.log2 g - Z.of_nat i')). rewrite <- Z.pow_add_r by lia. f_equal. lia. }
+        pose proof (accept_le (n - 1) i' x ltac:(lia) Hr ltac:(lia) Dv Hle). lia.
+    + rewrite skipn_all2 by lia. simpl. rewrite Z.div_small by lia. lia.
+    + rewrite skipn_all2 by lia. simpl. rewrite Z.div_small by lia. reflexivity.
+Qed.
+
+Theorem randbelow_range : forall fuel n tp v tp', 1 <= n -> bits tp ->
+  randbelow fuel n tp = Some (v, tp') -> 0 <= v < n /\ bits tp'.
+Proof.
+  intros fuel n tp v tp' Hn Htp H. unfold randbelow in H.
+  destruct (randbelow_bits fuel n tp) as [[x tp1]|] eqn:E; [|discriminate]. injection H as <- <-.
+  destruct (randbelow_bits_range _ _ _ _ _ Hn Htp E) as (_ & _ & R & T). split; assumption.
+Qed.
+
+(** randrange / randint: on the lattice start + r*step with 0 <= r < len(range(start, stop, step)) *)
+Theorem randrange_lattice : forall fuel start stop step tp v tp', bits tp ->
+  randrange fuel start stop step tp = Some (v, tp') ->
+  exists r, 0 <= r < range_len start stop step /\ v = start + r * step.
+Proof.
+  intros fuel start stop step tp v tp' Htp H. unfold randrange in H.
+  destruct (range_len start stop step =? 0) eqn:E0; [discriminate|]. apply Z.eqb_neq in E0.
+  destruct (randbelow fuel (range_len start stop step) tp) as [[r tp1]|] eqn:E; [|discriminate]. injection H as <- <-.
+  assert (Hn : 1 <= range_len start stop step).
+  { unfold range_len in *. destruct (0 <? step); [lia|]. destruct (step <? 0); lia. }
+  destruct (randbelow_range _ _ _ _ _ Hn Htp E) as [R _]. exists r. split; [exact R | reflexivity].
+Qed.
+
+(** for step > 0 the lattice points lie in [start, stop) *)
+Theorem randrange_within : forall fuel start stop step tp v tp', bits tp -> 0 < step ->
+  randrange fuel start stop step tp = Some (v, tp') -> start <= v < stop /\ (step | v - start).
+Proof.
+  intros fuel start stop step tp v tp' Htp Hs H.
+  destruct (randrange_lattice _ _ _ _ _ _ _ Htp H) as (r & [R0 R1] & ->).
+  unfold range_len in R1. assert (E : (0 <? step) = true) by (apply Z.ltb_lt; exact Hs). rewrite E in R1.
+  split; [|exists r; ring].
+  assert (Hr : r < (stop - start + step - 1) / step) by lia.
+  pose proof (Z.div_mod (stop - start + step - 1) step ltac:(lia)) as D.
+  pose proof (Z.mod_pos_bound (stop - start + step - 1) step Hs) as B.
+  set (q := (stop - start + step - 1) / step) in *. set (m := (stop - start + step - 1) mod step) in *.
+  clearbody q m. split; nia.
+Qed.
+
+(** uniform, non-degenerate interval a < b (scaled integers): a <= N < b *)
+Theorem uniform_within : forall fuel a b tp v tp', bits tp -> a < b ->
+  uniform_fxp fuel a b tp = Some (v, tp') -> a <= v < b.
+Proof.
+  intros fuel a b tp v tp' Htp Hab H. unfold uniform_fxp in H.
+  destruct (randbelow fuel (Z.abs (a - b)) tp) as [[r tp1]|] eqn:E; [|discriminate]. injection H as <- <-.
+  assert (Hn : 1 <= Z.abs (a - b)) by lia.
+  destruct (randbelow_range _ _ _ _ _ Hn Htp E) as [R _].
+  assert (S : (b - a <? 0) = false) by (apply Z.ltb_ge; lia). rewrite S. lia.
+Qed.
+
+(** ** uniformity by counting, bounded (n <= 64): among the tapes holding exactly one pass of k bits, _randbelow
+    accepts precisely those encoding a value v < n, returns that v and consumes the k bits; all other k-bit tapes
+    are rejected (the restart then finds no bits).  So conditional on acceptance in the first pass the output is
+    uniform on range(n): one accepting tape per value. *)
+Definition all_tapes (k : nat) : list tape := map (fun z => tape_of k (Z.of_nat z)) (seq 0 (2 ^ k)).
+
+Definition res_dec : forall a b : option (Z * tape), {a = b} + {a <> b}.
+Proof. repeat decide equality. Defined.
+
+Definition one_pass_expected (n : Z) (tp : tape) : option (Z * tape) :=
+  if from_bits tp <? n then Some (from_bits tp, []) else None.
+
+Definition one_pass_ok (n : Z) : bool :=
+  forallb (fun tp => if res_dec (randbelow 100 n tp) (one_pass_expected n tp) then true else false)
+          (all_tapes (bit_length (n - 1))).
+
+Lemma one_pass_all : forallb one_pass_ok (map Z.of_nat (seq 1 64)) = true.
+Proof. vm_compute. reflexivity. Qed.
+
+Theorem randbelow_one_pass_bounded : forall n, 1 <= n <= 64 ->
+  forall tp, In tp (all_tapes (bit_length (n - 1))) ->
+    randbelow 100 n tp = if from_bits tp <? n then Some (from_bits tp, []) else None.
+Proof.
+  intros n Hn tp Hin. pose proof one_pass_all as A. rewrite forallb_forall in A.
+  assert (I : In n (map Z.of_nat (seq 1 64))).
+  { apply in_map_iff. exists (Z.to_nat n). split; [lia|]. apply in_seq. lia. }
+  specialize (A n I). unfold one_pass_ok in A. rewrite forallb_forall in A. specialize (A tp Hin).
+  destruct (res_dec (randbelow 100 n tp) (one_pass_expected n tp)) as [E|]; [exact E | discriminate].
+Qed.
+
+(** every value v < n has an accepting one-pass tape (its k-bit encoding), n <= 64 *)
+Theorem randbelow_one_pass_onto_bounded : forall n, 1 <= n <= 64 -> forall v, 0 <= v < n ->
+  exists tp, In tp (all_tapes (bit_length (n - 1))) /\ randbelow 100 n tp = Some (v, []).
+Proof.
+  assert (A : forallb (fun n => forallb (fun v =>
+             existsb (fun tp => if res_dec (randbelow 100 n tp) (Some (Z.of_nat v, [])) then true else false)
+                     (all_tapes (bit_length (n - 1)))) (seq 0 (Z.to_nat n))) (map Z.of_nat (seq 1 64)) = true)
+    by (vm_compute; reflexivity).
+  intros n Hn v Hv. rewrite forallb_forall in A.
+  assert (I : In n (map Z.of_nat (seq 1 64))).
+  { apply in_map_iff. exists (Z.to_nat n). split; [lia|]. apply in_seq. lia. }
+  specialize (A n I). rewrite forallb_forall in A.
+  assert (Iv : In (Z.to_nat v) (seq 0 (Z.to_nat n))) by (apply in_seq; lia).
+  specialize (A _ Iv). apply existsb_exists in A. destruct A as (tp & Hin & E).
+  exists tp. split; [exact Hin|]. rewrite Z2Nat.id in E by lia.
+  destruct (res_dec (randbelow 100 n tp) (Some (v, []))) as [E'|]; [exact E' | discriminate].
+Qed.
+
+(** a rejection is decided by the bits at and above the rejection position only: the retained low bits x[:j]
+    are not inspected by the pass (any x' agreeing with x from position j upwards is rejected at the same j),
+    so the bits kept by the restart are unconstrained by the decision. *)
+Lemma rb_pass_pos : forall b t, (1 <= t)%nat -> forall steps x h i j,
+  rb_pass b t x h steps i = Some j -> (j < i)%nat.
+Proof.
+  intros b t Ht. induction steps as [|s IH]; intros x h i j H; [discriminate|].
+  cbn [rb_pass] in H. destruct (i <? t)%nat eqn:E; [discriminate|]. apply Nat.ltb_ge in E.
+  destruct (Z.testbit b (Z.of_nat (i - 1))).
+  - apply IH in H. lia.
+  - destruct (h * nth (i - 1) x 0 =? 0).
+    + apply IH in H. lia.
+    + injection H as <-. lia.
+Qed.
+
+Theorem rb_pass_ignores_low_bits : forall b t, (1 <= t)%nat -> forall steps x x' h i j,
+  rb_pass b t x h steps i = Some j ->
+  (forall m, (j <= m)%nat -> nth m x' 0 = nth m x 0) ->
+  rb_pass b t x' h steps i = Some j.
+Proof.
+  intros b t Ht. induction steps as [|s IH]; intros x x' h i j H Hn; [discriminate|].
+  pose proof (rb_pass_pos b t Ht _ _ _ _ _ H) as Lj.
+  cbn [rb_pass] in *. destruct (i <? t)%nat; [discriminate|].
+  rewrite (Hn (i - 1)%nat) by lia.
+  destruct (Z.testbit b (Z.of_nat (i - 1))).
+  - apply (IH x); assumption.
+  - destruct (h * nth (i - 1) x 0 =? 0).
+    + apply (IH x); assumption.
+    + exact H.
+Qed.
